@@ -32,6 +32,10 @@ for p in props:
         na.append({"property_id": pid, "reason": PENDING_REASON})
         continue
     mod = importlib.import_module("rules." + pid)
+    accepted = open(os.path.join(HERE, "rules", "ACCEPTED.txt")).read().split()
+    if getattr(mod, "READY", True) is False or pid not in accepted:
+        na.append({"property_id": pid, "reason": PENDING_REASON + " (rule module under triage)"})
+        continue
     checks.append({
         "property_id": pid,
         "quick_cmd": "./check %s --tier quick" % pid,
